@@ -77,8 +77,12 @@ impl AgonesDiscoveryAdapter {
                     // a (re-)list starts, collect its servers separately
                     Event::Init => listed.clear(),
                     Event::InitApply(server) => {
-                        if let Some(target) = ready_target(server) {
-                            upsert_target(&mut listed, target);
+                        let identifier = server.name_any();
+                        match ready_target(server) {
+                            Some(target) => upsert_target(&mut listed, target),
+                            // a streamed list repeats a server that changes while it is sent, the
+                            // version collected before no longer counts
+                            None => remove_target(&mut listed, &identifier),
                         }
                     }
                     // the list is complete, servers that are not part of it no longer exist
